@@ -4,5 +4,6 @@ Require Extraction.
 Require Import ExtrOcamlBasic.
 Extraction Language OCaml.
 Extraction "c05_model.ml" run_union run_sel run_difference is_disjoint is_subset is_superset
+  run_union_on run_sel_on run_difference_on is_disjoint_on is_subset_on is_superset_on poisoned inert
   pop_min_left pop_min_right spec_union spec_sel spec_difference
   spec_disjoint spec_subset spec_superset canon.
